@@ -386,7 +386,15 @@ func (e *InterpreterEnvironment) newContractValueHandler() interpreter.ContractV
 		}
 
 		if addressLocation, ok := contractLocation.(common.AddressLocation); ok {
-			return loadContractValue(inter, addressLocation, e.storage)
+			contractValue := loadContractValue(inter, addressLocation, e.storage)
+			// NOTE: the contract value might not exist (yet),
+			// e.g. if the contract was added in the current transaction,
+			// as the write of the contract value is deferred to the end of the transaction.
+			// Return an untyped nil, instead of a typed nil pointer.
+			if contractValue == nil {
+				return nil
+			}
+			return contractValue
 		}
 
 		panic(errors.NewDefaultUserError("failed to load contract: %s", contractLocation))
